@@ -133,3 +133,23 @@ def reg_bump(r, k):
     # round 4 (C03 #4): clauses read the derived view `twice` (a lambda over the heap); beta_reduce=True
     r.vals[k] = r.vals.get(k, 0) + 1
     return r.vals[k]
+
+
+class HSub:
+    def __init__(self):
+        self.glyphs = set()
+
+
+def store_then_mutate(sub, glyphs, extra):
+    # round 4 (soundness, ext-C05-C10): `obj.field = param` stores the SAME set object: a later in-place change of the field
+    # changes the caller's set
+    sub.glyphs = glyphs
+    sub.glyphs.add(extra)
+    return len([extra])
+
+
+def store_then_mutate_local(sub, extra):
+    s = set()
+    sub.glyphs = s
+    sub.glyphs.add(extra)
+    return s
